@@ -130,6 +130,18 @@ def coreStep (st : CoreSt) (t : List String) (implObs : String) : Option (CoreSt
           some ({ st with cores := st.cores.set i c', ref := ref' }, obs, sv)
       | _, _ => some (st, "bad-op", "-")
     | _, _ => some (st, "bad-op", "-")
+  | ["forge", s, kid, _, _] =>
+    -- a datagram sealed under a key of the outsider's choice: to the ideal AEAD it is garbage whatever slot it names
+    match sideIdx s, kid.toNat? with
+    | some i, some kid =>
+      match st.cores[i]? with
+      | some c =>
+        let (c', r) := c.decrypt { hdr := kid :: [0, 255, 255, 255, 255, 255, 255], body := .garbage 17 }
+        let obs := match r with | .ok p => "ok:" ++ Bytes.toHexOrDash p | .error _ => "err"
+        some ({ st with cores := st.cores.set i c' }, obs,
+              if implObs = "err" then "ok" else "FAIL C02 a datagram sealed under a key that was never agreed (outsider-chosen key for an unused slot) was accepted")
+      | none => some (st, "bad-op", "-")
+    | _, _ => some (st, "bad-op", "-")
   | ["tick", s] =>
     match sideIdx s with
     | some i =>
@@ -145,7 +157,11 @@ def coreStep (st : CoreSt) (t : List String) (implObs : String) : Option (CoreSt
         let (st1, kr) := keyRefOf st key
         let c' := c.rotateKey kr id (use = "1") (start % 2 ^ 48)
         let obs := s!"start={nonceHex ((c'.slots[id % 4]?.map (·.send)).getD 0)}"
-        some ({ st1 with cores := st1.cores.set i c', ref := CoreRef.rotate st1.ref i id (use = "1") key }, obs, "-")
+        -- C04: a rotated-in key starts a fresh sequence at an unpredictable value: the implementation's start value must not be
+        -- the counter the replaced key of that slot had reached (a fresh 48-bit random value coincides with probability 2^-48)
+        let oldSend := (c.slots[id % 4]?.map (·.send)).getD 0
+        let sv := if start = oldSend then "FAIL C04 rotated-in key continues the nonce sequence of the key it replaced (start value is not fresh)" else "ok"
+        some ({ st1 with cores := st1.cores.set i c', ref := CoreRef.rotate st1.ref i id (use = "1") key }, obs, sv)
       | none => some (st, "bad-op", "-")
     | _, _, _ => some (st, "bad-op", "-")
   | ["setsend", s, slot, n] =>
